@@ -79,6 +79,9 @@ func genRules(r *rand.Rand) []model.InhibitRule {
 				rule.Equal = []string{gen.Pick(r, gen.LabelNames)}
 			}
 		}
+		if r.Intn(2) == 0 {
+			rule.Name = gen.Pick(r, []string{"same", "same", "other"}) // names are optional and need not be unique
+		}
 		rules = append(rules, rule)
 	}
 	return rules
@@ -130,7 +133,7 @@ func newWorld(rules []model.InhibitRule, gcInterval time.Duration) *world {
 	}
 	var crs []amcommoncfg.InhibitRule
 	for _, ru := range rules {
-		crs = append(crs, amcommoncfg.InhibitRule{SourceMatchers: realMatchers(ru.Source), TargetMatchers: realMatchers(ru.Target), Equal: ru.Equal})
+		crs = append(crs, amcommoncfg.InhibitRule{Name: ru.Name, SourceMatchers: realMatchers(ru.Source), TargetMatchers: realMatchers(ru.Target), Equal: ru.Equal})
 	}
 	inh := inhibit.NewInhibitor(alerts, crs, logger, eventrecorder.NopRecorder())
 	go inh.Run()
